@@ -22,6 +22,9 @@ package worker
 // moves from starting to running and the worker's "updated" stamp is bumped
 // together with "busy", so that a probe result computed before the start is
 // discarded instead of declaring the live container exited.
+// remoteRunner.Start talks to the VM; it does not touch the worker's bookkeeping.
+//@ func remoteRunner.Start trusted
+//@   modifies nothing
 //@ func worker.startContainer$1 property C14
 //@   requires wkr.running != nil && wkr.starting != nil && wkr.running != wkr.starting
 //@   ensures wkr.updated == wkr.busy && has(wkr.running, ctr.UUID) && !has(wkr.starting, ctr.UUID) && wkr.lastUUID == ctr.UUID
